@@ -112,7 +112,7 @@ func c05Decompressed(rq c05Request) (int, bool) {
 }
 
 func (c *c05Run) allocNotes() {
-	for _, s := range []string{"structured", "prerequest", "raw"} {
+	for _, s := range []string{"structured", "prerequest", "probe", "raw"} {
 		if w, ok := c.maxAllocWhat[s]; ok {
 			c.r.Notes = append(c.r.Notes, "allocation oracle, largest per-request TotalAlloc delta of stream "+s+": "+w)
 		}
